@@ -31,6 +31,9 @@ func main() {
 		drv.Exit(replay(os.Args[2]))
 	case "C01", "C02", "C03", "C05", "C06", "C07", "C08":
 		drv.Exit(enga.Run(os.Args[1], tier()))
+	case "warm":
+		drv.WarmGoCache()
+		drv.Exit(drv.ExitOK)
 	case "selftest":
 		n := 4
 		if len(os.Args) > 2 {
